@@ -58,7 +58,102 @@ def run_C13(ctx):
         ctx.run("c-asan", "eng_ec.c", scale=0.2)
 
 
+def run_C04(ctx):
+    ctx.run("asm", "eng_crc.c")
+    if ctx.thorough:
+        ctx.run("c-asan", "eng_crc.c", scale=0.3)
+
+
+def run_C08(ctx):
+    ctx.run("asm", "eng_raid.c")
+    if ctx.thorough:
+        ctx.run("c-asan", "eng_raid.c", scale=0.3)
+
+
+def cov_C08(ctx, agg):
+    c = kern_cov(
+        "per variant symbol: vects 3/4..34 dense plus {64,128,255,256,257}, len any (xor) or every documented multiple up to 2 KiB then sampled to 16 KiB (pq), legally aligned START / near-END guard placement, random data plus all-0/all-0xFF sources; check functions: reference-built consistent arrays must return 0, then single-byte corruptions (every byte position for some short arrays, tails favoured otherwise) of a source, P or Q must return non-zero; every 25th case an out-of-contract vects value with all vectors unmapped; distinct by hash of (symbol, data tag, len, vects); cases with len>0 are non-trivial",
+        "P = xor and Q = sum 2^i D_i (Horner, reference GF) compared byte for byte; two-erasure recovery solved with the reference field from the library's own P and Q")(ctx, agg)
+    for k in ("corruptions_in_source", "corruptions_in_P", "corruptions_in_Q", "out_of_contract_calls"):
+        c[k] = dict(sorted(agg.cnts.get(k, {}).items()))
+    return c
+
+
+def run_C20(ctx):
+    ctx.run("asm", "eng_mem.c")
+    if ctx.thorough:
+        ctx.run("c-asan", "eng_mem.c")
+
+
+def cov_C20(ctx, agg):
+    c = kern_cov(
+        "per variant symbol: every len 0..1100 x alignments (6 random per len in quick, all 64 in thorough) x placement END/START/near-END; all-zero region with 0xFF neighbours must give 0; then a single non-zero byte (values 01/80/FF) at every position for len<=140 (quick) / <=600 (thorough), else first 8, last 8 and 8 random positions, with neighbours alternately 0x00 and 0xFF; plus regions up to 1 MiB; distinct by (symbol, len, alignment, placement); len>0 is non-trivial",
+        "answers compared with the definition (0 iff all bytes zero); region ends/starts at an inaccessible page")(ctx, agg)
+    c["single_byte_positions_tested"] = dict(sorted(agg.cnts.get("single_byte_positions_tested", {}).items()))
+    c["exhaustive"] = False
+    return c
+
+
+def run_C12(ctx):
+    ctx.run("asm", "eng_gfmath.c", nshards=1)
+    ctx.run("large", "eng_gfmath.c", nshards=1)
+    if ctx.thorough:
+        ctx.run("c-asan", "eng_gfmath.c", nshards=1)
+
+
+def cov_C12(ctx, agg):
+    return {"rule": "complete enumeration: all 65536 (a,b) pairs for gf_mul against shift-and-xor reduction by 0x11D, all 256 inverses, all 256 constants x 32 table entries of gf_vect_mul_init and the 256x256 table-driven products, ec_init_tables over matrices containing all 256 constants, the GFNI 8-byte affine form applied to all 256x256 (c,x) with the SDM semantics of GF2P8AFFINEQB (C emulation cross-checked with the real instruction), distributivity/associativity triples on the library alone; default and GF_LARGE_TABLES builds; distinct_nontrivial counts distinct (a,b) pairs per build",
+            "explanation": "finite domain enumerated completely in each build", "exhaustive": True,
+            "gfni_semantics": sorted(agg.sets.get("gfni_semantics", []))}
+
+
+def run_C09(ctx):
+    ctx.run("asm", "eng_gfmath.c")
+    if ctx.thorough:
+        ctx.run("large", "eng_gfmath.c", scale=0.3)
+        ctx.run("c-asan", "eng_gfmath.c", scale=0.2)
+
+
+def cov_C09(ctx, agg):
+    st = agg.stats
+    return {"rule": "inversion: random n x n (n<=128) in 10 families (random, duplicate row, linear combination, zero column at any index, proportional columns, scaled permutation, zero diagonal, bounded rank, zero row, sparse); library verdict compared with the reference determinant and in x out with I; generators compared with [I; 1/(i^j)] and [I; 2^((i-k)j)] for all (m,k), m<=48 and selected m up to 256; survivor patterns: EVERY k-subset for all (m,k) up to the listed m (Cauchy, and Vandermonde pairs documented safe) through gf_invert_matrix + ec_init_tables + ec_encode_data; minors of the parity block (size<=4) enumerated completely where listed, sampled otherwise; sampled full pipeline for large (m,k); distinct by hash of matrix / survivor set",
+            "inversions": int(st.get("inversions", 0)), "singular_inputs": int(st.get("singular_inputs", 0)), "survivor_patterns": int(st.get("survivor_patterns", 0)),
+            "minors": int(st.get("minors", 0)), "recoveries_via_ec_encode_data": int(st.get("recoveries_via_ec_encode_data", 0)),
+            "explanation": "differential oracle against an independent GF(2^8) implementation (determinant by elimination, matrix product)"}
+
+
+def floor_C09(ctx, agg):
+    st = agg.stats
+    miss = []
+    for k, n in (("inversions", 2000), ("singular_inputs", 300), ("survivor_patterns", 1000), ("minors", 10000), ("recoveries_via_ec_encode_data", 500)):
+        if st.get(k, 0) < n:
+            miss.append("%s=%d < %d" % (k, st.get(k, 0), n))
+    return miss
+
+
 PROPS = {
+    "C20": dict(run=run_C20, level="exploration", coverage=cov_C20, floors=kern_floor(5, 60),
+                assumptions=["host CPU executes every variant"]),
+    "C12": dict(run=run_C12, level="exploration", coverage=cov_C12,
+                floors=lambda ctx, agg: ["evaluations %d < 2*200000" % agg.stats.get("evaluations", 0)] if agg.stats.get("evaluations", 0) < 400000 else [],
+                assumptions=["reference multiplication is shift-and-xor with reduction by 0x11D, self-tested against the field axioms and the order of the generator"]),
+    "C09": dict(run=run_C09, level="exploration", coverage=cov_C09, floors=floor_C09,
+                assumptions=["documented-safe Vandermonde pairs: k<=3, (k=4,m<=25), (k=5,m<=10), (k<=21,m-k=4), m-k<=3; m-k<=250 so that generator powers do not repeat",
+                             "a singular minor of the parity block is equivalent to an undecodable survivor set"]),
+    "C08": dict(
+        run=run_C08, level="exploration", coverage=cov_C08, floors=kern_floor(15, 20),
+        assumptions=["host CPU executes every variant", "documented alignment (32B, 16B for sse/check) and length multiples (32B pq_gen, 16B sse/avx/check) respected: other inputs are outside the contract",
+                     "len == 0: only memory safety asserted"],
+    ),
+    "C04": dict(
+        run=run_C04, level="exploration",
+        coverage=kern_cov(
+            "per variant symbol: systematic sweep of every length 0..1100, then random lengths up to 1 MiB and one multi-MiB buffer; per case random seed (0, all-ones, single bit, random; valid Adler states), placement END/START/near-END with alignment 0..63, data families (random, 0xFF-saturated, zero); every split point for short buffers and random 2/3-way splits otherwise; distinct by hash of (symbol, data, seed, len, alignment); all cases with len>0 are non-trivial",
+            "each value is compared with a bit-at-a-time Rocksoft-model CRC (or RFC 1950 Adler-32) whose parameters are anchored to the published check values of '123456789' before any library call is judged; chaining over pieces must equal the one-shot value; the copy form must reproduce the source; dispatchers run under simulated CPU levels through the real resolvers"),
+        floors=kern_floor(60, 40),
+        assumptions=["host CPU executes every variant", "per-routine init/xorout conventions as documented in crc.h/crc64.h (crc32_iscsi raw, crc16 raw, others inverted in/out)",
+                     "Adler-32 seeds restricted to valid states (A,B < 65521)"],
+    ),
     "C03": dict(
         run=run_C03, level="exploration",
         coverage=kern_cov(
